@@ -25,7 +25,8 @@ RULE = ('one case = one shape (a circle, a list of circles, or a convex 3..8-gon
         'positions on and around the shape handed to sky_within(degin=True) as python ints, lists of ints, int32/int64 '
         'arrays and numpy integer scalars (must equal the float spelling and obey the same geometric oracle); a '
         '"build" case = 2..4 successive add_circles/add_poly calls on one Region (nested in both orders, partially '
-        'overlapping, disjoint, single and vector add_circles) whose get_area is read BEFORE any query and again after '
+        'overlapping, disjoint, single and vector add_circles; vector calls also hold concentric circles in any '
+        'order of radius and exact duplicates - repeated polygon vertices are refused by healpy and not used) whose get_area is read BEFORE any query and again after '
         'one, and the same kind of build with a query (sky_within scalar / list / vector, get_demoted, get_area) between '
         'the steps after which every shape added so far is judged again; the depth argument of add_circles and '
         'add_poly is driven below, equal to and above maxdepth; "via" cases: shapes built at depth D reach the judged '
@@ -77,7 +78,7 @@ MIN_COUNTERS = {'circle_probe_inside_judged': 2000, 'circle_probe_far_judged': 2
                 'regfile_regions': 40, 'regfile_sexagesimal': 15, 'regfile_shapes_dec_between_minus1_and_0': 15,
                 'regfile_probe_inside_judged': 2000, 'via_probe_inside_judged': 2000, 'via_depth_gap_2_or_more': 15,
                 'via_shallower_into_deeper': 5, 'via_source_queried_first': 10,
-                'builds_area_before_query': 30, 'builds_with_interleaved_queries': 40, 'build_interleaved_queries': 60,
+                'vector_calls_with_concentric_circles': 40, 'builds_area_before_query': 30, 'builds_with_interleaved_queries': 40, 'build_interleaved_queries': 60,
                 'build_vector_add_circles': 10, 'add_poly_with_depth_argument': 50, 'builds_with_overlap': 15, 'build_probe_inside_judged': 2000}
 
 EPS_RAD = 1e-9                      # undetermined band around a boundary (statement: DESIGN C09 'O')
@@ -177,6 +178,39 @@ def cases(seed, tier):
                 steps.append(st)
             out.append({'kind': 'build', 'maxdepth': md, 'depth': None, 'steps': steps, 'n': 1200,
                         'seed': ['t', 'build', i, polymask]})
+    # duplicates and ties inside one vector add_circles call: concentric circles (radii increasing / decreasing / mixed,
+    # exact duplicates), alone and next to circles elsewhere
+    k = 0
+    for (ra, dec, md) in ((150.0, -30.0, 8), (0.0, 0.0, 7), (300.0, 89.0, 7), (45.0, 60.0, 9)):
+        for radii in ([1.0, 3.0], [3.0, 1.0], [0.5, 2.0, 1.0], [2.0, 0.5, 4.0, 1.0], [1.5, 1.5], [1.0, 1.0, 2.5]):
+            for style in ('list', 'array'):
+                ras, decs, rs = [ra] * len(radii), [dec] * len(radii), list(radii)
+                if k % 3 == 0:            # plus an unrelated circle in the same call, first or last
+                    pos = 0 if k % 2 else len(ras)
+                    ras.insert(pos, (ra + 20.0) % 360)
+                    decs.insert(pos, max(dec - 15.0, -89.0))
+                    rs.insert(pos, 2.0)
+                out.append({'kind': 'circles', 'maxdepth': md, 'depth': None, 'ra': [math.radians(x) for x in ras],
+                            'dec': [math.radians(x) for x in decs], 'r': [math.radians(x) for x in rs], 'style': style,
+                            'concentric': True, 'n': 2000, 'seed': ['t', 'concentric', k]})
+                k += 1
+    rcon = rng_for(seed, 'c09-concentric', tier)
+    for i in range(60 if tier == 'quick' else 900):
+        md = int(rcon.integers(6, 11))
+        pixd = resol_deg(md)
+        ra, dec = float(rcon.uniform(0, 2 * math.pi)), float(math.asin(rcon.uniform(-1, 1)))
+        m = int(rcon.integers(2, 5))
+        rs = [math.radians(pixd * 10 ** rcon.uniform(0.3, 1.6)) for _ in range(m)]
+        if rcon.random() < 0.3:
+            rs[int(rcon.integers(0, m))] = rs[0]                      # an exact duplicate
+        ras, decs = [ra] * m, [dec] * m
+        for _ in range(int(rcon.integers(0, 3))):                      # other circles interleaved
+            pos = int(rcon.integers(0, len(ras) + 1))
+            ras.insert(pos, float(rcon.uniform(0, 2 * math.pi)))
+            decs.insert(pos, float(math.asin(rcon.uniform(-1, 1))))
+            rs.insert(pos, math.radians(pixd * 10 ** rcon.uniform(0.3, 1.4)))
+        out.append({'kind': 'circles', 'maxdepth': md, 'depth': None, 'ra': ras, 'dec': decs, 'r': rs,
+                    'style': str(rcon.choice(['list', 'array'])), 'concentric': True, 'n': 2000, 'seed': [seed, 'concentric', i]})
     # shapes that reach the judged region through another region (Region.union / MIMAS -depth d +r file)
     hexa = [0.0, 55.0, 120.0, 185.0, 240.0, 300.0]
     k = 0
@@ -1213,6 +1247,8 @@ def _run_circles(o, reg, case, rng, md, dp, pix):
     rs = case['r'] if multi else [case['r']]
     style = case['style']
     o.see('add_circles_style', style)
+    if case.get('concentric'):
+        o.count('vector_calls_with_concentric_circles')
     if style.startswith('int'):
         # whole radians handed over integer-typed (the radius too when it is a whole number)
         rr = [int(r) if float(r).is_integer() else float(r) for r in rs]
